@@ -284,6 +284,20 @@ def _job_run(u, case, tier, canary, wd, res, defs):
         if rc != 0:
             raise Infra("remove-function-pointers failed: " + (txt or "")[-1500:])
         cur = "u_fp.gb"
+    if u.get("plain"):
+        # supporting facts about constant data (label strings, DER prefixes ...): a plain cbmc run of the
+        # harness with the program's own static initialisers (DFCC would havoc them); obligations are the
+        # harness assertions  PLAIN_ASSERT(label, cond)
+        shutil.copy(os.path.join(wd, cur), os.path.join(wd, "u_dfcc.gb"))
+        cmd = ["cp", cur, "u_dfcc.gb"]
+    else:
+        _dfcc(u, fn, cur, wd)
+        cmd = ["goto-instrument", "--dfcc", "harness", "--enforce-contract", fn] + sum([["--replace-call-with-contract", g] for g in u["replace"]], []) + \
+              (["--apply-loop-contracts"] if u.get("loop_contracts") else []) + [cur, "u_dfcc.gb"]
+    _after_instrument(u, case, tier, canary, wd, res, cmd, fn)
+
+
+def _dfcc(u, fn, cur, wd):
     cmd = ["goto-instrument", "--dfcc", "harness", "--enforce-contract", fn]
     for g in u["replace"]:
         cmd += ["--replace-call-with-contract", g]
@@ -294,8 +308,9 @@ def _job_run(u, case, tier, canary, wd, res, defs):
     if rc != 0:
         raise Infra("goto-instrument --dfcc failed: " + (txt or "")[-2000:])
     open(os.path.join(wd, "dfcc.log"), "w").write(txt or "")
-    if u.get("loop_contracts") and "loop" not in (txt or "").lower():
-        pass
+
+
+def _after_instrument(u, case, tier, canary, wd, res, cmd, fn):
     cb = ["cbmc", "u_dfcc.gb"] + CBMC_CHECKS + ["--object-bits", str(u.get("object_bits", 12)), "--json-ui", "--trace"]
     if u.get("malloc_may_fail", False):
         cb += ["--malloc-may-fail", "--malloc-fail-null"]
@@ -313,7 +328,7 @@ def _job_run(u, case, tier, canary, wd, res, defs):
         cb += ["--sat-solver", u["solver"]]
     cb += u["extra_cbmc"]
     n_posts = len(u["labels"])
-    if canary:
+    if canary and not u.get("plain"):
         cb += ["--property", "%s.postcondition.%d" % (fn, n_posts + 1)]
     res["checker_cmd"] = " ".join(cmd[:-2]) + " ; " + " ".join(cb)
     rc, txt, dt = run(cb, wd, u["timeout"], u["mem_gb"], out=os.path.join(wd, "cbmc.json"))
@@ -343,6 +358,8 @@ def _job_run(u, case, tier, canary, wd, res, defs):
         pr = {"id": r["property"], "status": r["status"], "desc": r.get("description", ""),
               "loc": "%s:%s" % (os.path.relpath(r.get("sourceLocation", {}).get("file", "?"), "/") if r.get("sourceLocation") else "?",
                                 r.get("sourceLocation", {}).get("line", "?"))}
+        if u.get("plain") and r.get("description", "") in u["labels"] + ["CANARY"]:
+            pr["label"] = r["description"]
         m = re.match(r"^%s\.postcondition\.(\d+)$" % re.escape(fn), r["property"])
         if m:
             k = int(m.group(1))
@@ -359,7 +376,7 @@ def _job_run(u, case, tier, canary, wd, res, defs):
     res["props"] = props
     if not props:
         raise Infra("zero obligations generated")
-    if not canary:
+    if not canary and not u.get("plain"):
         got = len([p for p in props if re.match(r"^%s\.postcondition\.\d+$" % re.escape(fn), p["id"])])
         if got != n_posts:
             raise Infra("postcondition count %d differs from POSTS labels %d" % (got, n_posts))
